@@ -1023,11 +1023,11 @@ theorem openBlock_sealBlock (ck : CkType) (bt : Nat) (payload : Bytes) (hbt : bt
     rw [hlen, ← hb, ← hbody]
     simp only [BLOCK_META_SIZE, List.append_assoc]
     rw [show payload.length + 16 - 16 = payload.length by omega, List.take_left' rfl]
-  simp only [openBlock]
+  simp only [openBlock, openBlockCfg]
   rw [if_neg (by simp only [BLOCK_META_SIZE]; omega)]
   simp only [e_bt, e_ct, e_ck, e_body, e_pay]
   rw [if_neg (by omega)]
-  cases ck <;> simp [CkType.ofCode?, CkType.code, verifyChecksum]
+  cases ck <;> simp [CkType.ofCode?, CkType.code, verifyStored, verifyChecksum]
 
 /-! blocks of an assembled column -/
 
@@ -1117,6 +1117,14 @@ theorem arrB_finish_push (bld : ArrB) (h : bld.valid.length = bld.data.length) (
   | nil => rfl
   | cons c cs ih => cases c <;> simp_all
 
+/-- `replace_bitmap` after the inner iterator pushed `got.length` valid items: the rows already
+in the builder keep their validity, the new rows get `bits` (the repaired
+`NullableBlockIterator::next_batch`). -/
+theorem replaceBitmap_pushed {α : Type} (d : List Bytes) (v : List Bool) (got : List α) (f : α → Bool) :
+    ({ data := d, valid := v ++ List.replicate got.length true } : ArrB).replaceBitmap (got.map f)
+      = { data := d, valid := v ++ got.map f } := by
+  simp [ArrB.replaceBitmap]
+
 /-- the iterator moved to the next block after taking `kk` more rows (normal form of the record
 updates in `nextLoop`) -/
 def advBlock (c : ColIter) (kk : Nat) : ColIter :=
@@ -1129,15 +1137,15 @@ def GoodState (blocks : List BlockInfo) (dflt : Bytes) (c : ColIter) : Prop :=
   c.blocks = blocks ∧ c.fake = false ∧ c.dflt = dflt ∧
   ((c.finished = true ∧ c.rowId = rowsOf blocks) ∨
    (c.finished = false ∧ ∃ pre b post pos, blocks = pre ++ b :: post ∧ c.blockId = pre.length
-      ∧ c.it = { cells := b.cells, pos, rawNullable := false, dflt } ∧ pos ≤ b.cells.length
+      ∧ c.it = { cells := b.cells, pos, rawNullable := b.rawNullable, dflt } ∧ pos ≤ b.cells.length
       ∧ c.rowId = rowsOf pre + pos))
 
 theorem nextLoop_spec (blocks : List BlockInfo) (dflt : Bytes)
-    (hraw : ∀ b ∈ blocks, b.rawNullable = false) (hwf : WfBlocks blocks 0) :
+    (hwf : WfBlocks blocks 0) :
     ∀ (post : List BlockInfo) (fuel : Nat) (pre : List BlockInfo) (b : BlockInfo) (pos : Nat) (c : ColIter)
       (e : Option Nat) (bld : ArrB) (t : Nat),
       blocks = pre ++ b :: post → c.blocks = blocks → c.dflt = dflt → c.blockId = pre.length →
-      c.it = { cells := b.cells, pos, rawNullable := false, dflt } → pos ≤ b.cells.length →
+      c.it = { cells := b.cells, pos, rawNullable := b.rawNullable, dflt } → pos ≤ b.cells.length →
       c.rowId = rowsOf pre + pos → post.length < fuel → bld.valid.length = bld.data.length →
       c.finished = false → c.fake = false →
       (∀ k, e = some k → t < k) → (e = none → t = 0) →
@@ -1154,7 +1162,7 @@ theorem nextLoop_spec (blocks : List BlockInfo) (dflt : Bytes)
     intro fuel pre b pos c e bld t hb hcb hcd hid hit hpos hrow hfuel hbld hfin hfake hsome hnone
     obtain ⟨fuel, rfl⟩ : ∃ f, fuel = f + 1 := ⟨fuel - 1, by simp at hfuel; omega⟩
     have hlen : c.blocks.length = pre.length + 1 := by rw [hcb, hb]; simp
-    simp only [nextLoop, BIter.nextBatch, hit]
+    simp only [nextLoop, BIter.nextBatch, hit, replaceBitmap_pushed, ite_self]
     cases e with
     | some k0 =>
       have htk := hsome k0 rfl
@@ -1162,7 +1170,7 @@ theorem nextLoop_spec (blocks : List BlockInfo) (dflt : Bytes)
       by_cases hle : k0 - t ≤ b.cells.length - pos
       · -- the batch is completed inside this block
         have hmin : min (k0 - t) (b.cells.length - pos) = k0 - t := Nat.min_eq_left hle
-        simp only [hmin, Bool.false_eq_true, ↓reduceIte]
+        simp only [hmin]
         have hdone : decide (t + (k0 - t) ≥ k0) = true := by simp; omega
         simp only [hdone, ↓reduceIte]
         refine ⟨k0 - t, rfl, ?_, ?_, by simp [hrow], ?_, ?_, ?_⟩
@@ -1173,7 +1181,7 @@ theorem nextLoop_spec (blocks : List BlockInfo) (dflt : Bytes)
         · intro h0; omega
         · refine ⟨hcb, hfake, hcd, .inr ⟨hfin, pre, b, [], pos + (k0 - t), hb, hid, rfl, by omega, by simp [hrow]; omega⟩⟩
       · have hmin : min (k0 - t) (b.cells.length - pos) = b.cells.length - pos := Nat.min_eq_right (by omega)
-        simp only [hmin, Bool.false_eq_true, ↓reduceIte]
+        simp only [hmin]
         have hdone : decide (t + (b.cells.length - pos) ≥ k0) = false := by simp; omega
         simp only [hdone, Bool.false_eq_true, ↓reduceIte, hid, hlen, Nat.le_refl, ge_iff_le]
         refine ⟨b.cells.length - pos, rfl, ?_, by simp [restCells], by simp [hrow], ?_, ?_, ?_⟩
@@ -1186,7 +1194,7 @@ theorem nextLoop_spec (blocks : List BlockInfo) (dflt : Bytes)
     | none =>
       have ht := hnone rfl
       subst ht
-      simp only [Option.map_none, Bool.false_eq_true, ↓reduceIte, Nat.zero_add]
+      simp only [Option.map_none, Nat.zero_add]
       by_cases hav : b.cells.length - pos = 0
       · have hdone : ((b.cells.length - pos) != 0) = false := by simp [hav]
         simp only [hdone, Bool.false_eq_true, ↓reduceIte, hid, hlen, Nat.le_refl, ge_iff_le]
@@ -1211,7 +1219,6 @@ theorem nextLoop_spec (blocks : List BlockInfo) (dflt : Bytes)
     have hlen : c.blocks.length = pre.length + 2 + post2.length := by rw [hcb, hb]; simp; omega
     have hb' : blocks = (pre ++ [b]) ++ b2 :: post2 := by rw [hb]; simp
     have hw2 := wf_split (pre ++ [b]) b2 post2 0 (hb' ▸ hwf)
-    have hraw2 : b2.rawNullable = false := hraw b2 (by rw [hb]; simp)
     -- the continuation into the next block, shared by the "not done" cases
     have hnext : ∀ (t' : Nat) (bld' : ArrB), bld'.valid.length = bld'.data.length →
         (∀ k, e = some k → t' < k) → (e = none → t' = 0) →
@@ -1229,18 +1236,18 @@ theorem nextLoop_spec (blocks : List BlockInfo) (dflt : Bytes)
       · simp only [advBlock, iterFor, hcb, hb, hid, hcd]
         have hg : (pre ++ b :: b2 :: post2).getD (pre.length + 1) default = b2 := by
           rw [List.getD_eq_getElem?_getD, List.getElem?_append_right (by omega)]; simp
-        rw [hg, hraw2]
+        rw [hg]
         congr 1
         rw [hw2.1, hrow, rowsOf_append, rowsOf_cons]; simp [rowsOf]; omega
       · simp only [advBlock, hrow, rowsOf_append, rowsOf_cons]; simp [rowsOf]; omega
-    simp only [nextLoop, BIter.nextBatch, hit]
+    simp only [nextLoop, BIter.nextBatch, hit, replaceBitmap_pushed, ite_self]
     cases e with
     | some k0 =>
       have htk := hsome k0 rfl
       simp only [Option.map_some]
       by_cases hle : k0 - t ≤ b.cells.length - pos
       · have hmin : min (k0 - t) (b.cells.length - pos) = k0 - t := Nat.min_eq_left hle
-        simp only [hmin, Bool.false_eq_true, ↓reduceIte]
+        simp only [hmin]
         have hdone : decide (t + (k0 - t) ≥ k0) = true := by simp; omega
         simp only [hdone, ↓reduceIte]
         refine ⟨k0 - t, rfl, ?_, ?_, by simp [hrow], ?_, ?_, ?_⟩
@@ -1252,7 +1259,7 @@ theorem nextLoop_spec (blocks : List BlockInfo) (dflt : Bytes)
         · intro h0; omega
         · refine ⟨hcb, hfake, hcd, .inr ⟨hfin, pre, b, b2 :: post2, pos + (k0 - t), hb, hid, rfl, by omega, by simp [hrow]; omega⟩⟩
       · have hmin : min (k0 - t) (b.cells.length - pos) = b.cells.length - pos := Nat.min_eq_right (by omega)
-        simp only [hmin, Bool.false_eq_true, ↓reduceIte]
+        simp only [hmin]
         have hdone : decide (t + (b.cells.length - pos) ≥ k0) = false := by simp; omega
         have hge : ¬ (c.blockId + 1 ≥ c.blocks.length) := by omega
         simp only [hdone, Bool.false_eq_true, ↓reduceIte, hge]
@@ -1277,7 +1284,7 @@ theorem nextLoop_spec (blocks : List BlockInfo) (dflt : Bytes)
     | none =>
       have ht := hnone rfl
       subst ht
-      simp only [Option.map_none, Bool.false_eq_true, ↓reduceIte, Nat.zero_add]
+      simp only [Option.map_none, Nat.zero_add]
       by_cases hav : b.cells.length - pos = 0
       · have hdone : ((b.cells.length - pos) != 0) = false := by simp [hav]
         have hge : ¬ (c.blockId + 1 ≥ c.blocks.length) := by omega
@@ -1331,7 +1338,7 @@ theorem cellsOf_length (pre : List BlockInfo) (b : BlockInfo) (post : List Block
 
 /-- outcome of one `next_batch(expected)` on a good state -/
 theorem nextBatch_spec (blocks : List BlockInfo) (dflt : Bytes)
-    (hraw : ∀ b ∈ blocks, b.rawNullable = false) (hwf : WfBlocks blocks 0)
+    (hwf : WfBlocks blocks 0)
     (c : ColIter) (hg : GoodState blocks dflt c) (e : Option Nat) (he : ∀ k, e = some k → 0 < k) :
     GoodState blocks dflt (c.nextBatch e).1 ∧
     ((∃ cells, (c.nextBatch e).2 = .batch c.rowId cells
@@ -1342,7 +1349,7 @@ theorem nextBatch_spec (blocks : List BlockInfo) (dflt : Bytes)
   rcases hst with ⟨hfin, hrow⟩ | ⟨hfin, pre, b, post, pos, hb, hid, hit, hpos, hrow⟩
   · simp only [ColIter.nextBatch, hfin, ↓reduceIte]
     exact ⟨⟨hcb, hfake, hcd, .inl ⟨hfin, hrow⟩⟩, .inr ⟨trivial, by simp [cellsOf, rowsOf, hrow], trivial⟩⟩
-  · have hspec := nextLoop_spec blocks dflt hraw hwf post (c.blocks.length + 1) pre b pos c e {} 0 hb hcb hcd hid
+  · have hspec := nextLoop_spec blocks dflt hwf post (c.blocks.length + 1) pre b pos c e {} 0 hb hcb hcd hid
       hit hpos hrow (by rw [hcb, hb]; simp; omega) rfl hfin hfake (fun k hk => he k hk) (fun _ => rfl)
     obtain ⟨d, h1, h2, h3, h4, h5, h6, h7⟩ := hspec
     simp only [ColIter.nextBatch, hfin, Bool.false_eq_true, ↓reduceIte, hfake]
@@ -1411,7 +1418,7 @@ theorem hinted_pos (c : ColIter) (k : Nat) (hk : 0 < k) : 0 < hinted c k ∧ hin
     exact ⟨by omega, Nat.min_le_left _ _⟩
 
 theorem scan_spec (blocks : List BlockInfo) (dflt : Bytes)
-    (hraw : ∀ b ∈ blocks, b.rawNullable = false) (hwf : WfBlocks blocks 0)
+    (hwf : WfBlocks blocks 0)
     (ops : List IterOp) (hops : ∀ op ∈ ops, ScanOp op) (c : ColIter) (hg : GoodState blocks dflt c) :
     SpecScan (cellsOf blocks) c.rowId ops (runOps c ops) := by
   induction ops generalizing c with
@@ -1421,7 +1428,7 @@ theorem scan_spec (blocks : List BlockInfo) (dflt : Bytes)
     have hrest : ∀ o ∈ ops, ScanOp o := fun o ho => hops o (by simp [ho])
     cases op with
     | next e =>
-      obtain ⟨hg', hout⟩ := nextBatch_spec blocks dflt hraw hwf c hg e hop
+      obtain ⟨hg', hout⟩ := nextBatch_spec blocks dflt hwf c hg e hop
       simp only [SpecScan, runOps, ColIter.step]
       refine ⟨_, _, rfl, ?_⟩
       rcases hout with ⟨cells, h1, h2, h3, h4, h5⟩ | ⟨h1, h2, h3⟩
@@ -1435,7 +1442,7 @@ theorem scan_spec (blocks : List BlockInfo) (dflt : Bytes)
         rwa [h3] at this
     | nextHinted k =>
       obtain ⟨hp, hle⟩ := hinted_pos c k hop
-      obtain ⟨hg', hout⟩ := nextBatch_spec blocks dflt hraw hwf c hg (some (hinted c k))
+      obtain ⟨hg', hout⟩ := nextBatch_spec blocks dflt hwf c hg (some (hinted c k))
         (fun k' hk' => by injection hk' with hk'; omega)
       simp only [SpecScan, runOps, ColIter.step]
       refine ⟨_, _, rfl, ?_⟩
@@ -1459,7 +1466,7 @@ theorem scan_spec (blocks : List BlockInfo) (dflt : Bytes)
 
 /-- a freshly created iterator at row 0 is in a good state -/
 theorem new_good (blocks : List BlockInfo) (dflt : Bytes)
-    (hraw : ∀ b ∈ blocks, b.rawNullable = false) (hwf : WfBlocks blocks 0) (hne : blocks ≠ []) :
+    (hwf : WfBlocks blocks 0) (hne : blocks ≠ []) :
     GoodState blocks dflt (ColIter.new blocks dflt 0) ∧ (ColIter.new blocks dflt 0).rowId = 0 := by
   cases blocks with
   | nil => exact absurd rfl hne
@@ -1475,7 +1482,7 @@ theorem new_good (blocks : List BlockInfo) (dflt : Bytes)
         simp [List.takeWhile_cons]; omega
     refine ⟨⟨rfl, rfl, rfl, .inr ⟨rfl, [], b, rest, 0, rfl, ?_, ?_, Nat.zero_le _, ?_⟩⟩, rfl⟩
     · simp [ColIter.new, hbor]
-    · simp [ColIter.new, hbor, iterFor, h1, hraw b (by simp)]
+    · simp [ColIter.new, hbor, iterFor, h1]
     · simp [ColIter.new, rowsOf]
 
 end RlModel
